@@ -94,7 +94,8 @@ def cases(tier, r):
     yield 'dag', {'seed': r.getrandbits(48), 'size': r.choice([3, 5, 8]),
                   'shapes': [r.choice(shapes) for _ in range(3)], 'bad_key': r.random() < 0.15}
   for _ in range(60 if tier == 'quick' else 800):
-    runs = [{'nested': r.choice([0, 0, 1, 2, 3]), 'fails': r.random() < 0.4} for _ in range(r.randint(1, 5))]
+    runs = [{'nested': r.choice([0, 0, 1, 2, 3]), 'fails': r.random() < 0.4, 'unconfig': r.random() < 0.35}
+            for _ in range(r.randint(1, 5))]
     yield 'guard', {'guard': True, 'runs': runs, 'seed': r.getrandbits(32)}
 
 
@@ -105,6 +106,21 @@ def make_root(case):
     # a dict key on the path whose repr() raises: formatting the diagnostic itself fails
     root = {BadRepr(): root, 'ok': 1}
   return root
+
+
+def _unconfig_leaf(x):
+  # the sanctioned pattern: returns a configuration, which auto_unconfig builds when called
+  return fdl.Config(graphs.node_fn(1, 0), p=x)
+
+
+def unconfig_leaf():
+  from fiddle.experimental import auto_config
+  if 'fn' not in _UNCONFIG:
+    _UNCONFIG['fn'] = auto_config.auto_unconfig(_unconfig_leaf)
+  return _UNCONFIG['fn']
+
+
+_UNCONFIG = {}
 
 
 def run_guard(case):
@@ -129,6 +145,10 @@ def run_guard(case):
     targets.HOOK['fn'] = hook
     try:
       outer = fdl.Config(targets.make_fn([['p', 'pk', True]], fn_name='outer_marker'), p=2)
+      if run.get('unconfig'):
+        # an auto_unconfig callable (which legitimately builds inside the build) runs first; the
+        # nested attempts of `outer_marker` afterwards must still be rejected
+        outer = fdl.Config(graphs.node_fn(1, 0), p=fdl.Config(unconfig_leaf(), 1), q=outer)
       try:
         fdl.build(outer)
         seen.append('built')
